@@ -49,7 +49,22 @@ const (
 	natBlock    // Policy.blockAccount(account Val), committee
 	natUnblock  // Policy.unblockAccount(account Val), committee
 	natDeploy   // ContractManagement.deploy(auxiliary contract Val)
+	natUpdate   // ContractManagement.update(nil, manifest) of the calling contract
+	natDestroy  // ContractManagement.destroy() of the calling contract
+	natDesignate // RoleManagement.designateAsRole(role To, node list Val), committee
+	natSetWl    // Policy.setWhitelistFeeContract(contract To, "run", 1, fee Val), committee
+	natDelWl    // Policy.removeWhitelistFeeContract(contract To, "run", 1), committee
+	natNeoTransfer // NEO.transfer(self, To, Amt, data)
+	natVote     // NEO.vote(self, candidate if Val != 0 else null)
+	// steps the NEO methods are desugared into (model only)
+	natNeoXferP
+	natVoteP
+	natMint
+	natRevoke
+	natBlockP
 )
+
+var roles = []int{4, 8, 16} // StateValidator, Oracle, NeoFSAlphabetNode
 
 const numAux = 3 // auxiliary contracts that trees may deploy
 
@@ -113,6 +128,23 @@ func nodeText(sb *strings.Builder, n *Node) {
 			fmt.Fprintf(sb, "U %d %d ", n.Nat.Val, n.Fl)
 		case natDeploy:
 			fmt.Fprintf(sb, "Y %d %d ", n.Nat.Val, n.Fl)
+		case natUpdate:
+			fmt.Fprintf(sb, "M %d ", n.Fl)
+		case natDestroy:
+			fmt.Fprintf(sb, "Z %d ", n.Fl)
+		case natDesignate:
+			fmt.Fprintf(sb, "R %d %d %d ", n.Nat.To, n.Nat.Val, n.Fl)
+		case natSetWl:
+			fmt.Fprintf(sb, "W %d %d %d ", n.Nat.To, n.Nat.Val, n.Fl)
+		case natDelWl:
+			fmt.Fprintf(sb, "V %d %d ", n.Nat.To, n.Fl)
+		case natNeoTransfer:
+			fmt.Fprintf(sb, "E %d %d %d %d ", n.Nat.To, n.Nat.Amt, n.Fl, b2i(n.Nat.HasCb))
+			listText(sb, n.Nat.Cb)
+		case natVote:
+			fmt.Fprintf(sb, "O %d %d ", n.Nat.Val, n.Fl)
+		default:
+			panic("bad native kind")
 		}
 	default:
 		panic("bad node")
@@ -132,6 +164,11 @@ type world struct {
 	gas, neo util.Uint160
 	policy   util.Uint160
 	mgmt     util.Uint160
+	roleMgmt util.Uint160
+	notary   util.Uint160
+	candKey  []byte                 // public key of the registered candidate
+	nodeSets map[int][]any          // designated node lists (public keys)
+	manifests [numContracts][]byte  // manifest used by ContractManagement.update
 	plain    map[int]util.Uint160 // ordinary accounts (no contract)
 	auxNef   [numAux][]byte
 	auxMan   [numAux][]byte
@@ -154,9 +191,9 @@ func (w *world) encList(l []*Node, self int) []any {
 
 func (w *world) nativeArgs(n *Node, self util.Uint160, selfID int) (util.Uint160, string, []any) {
 	switch n.Nat.Kind {
-	case natTransfer:
+	case natTransfer, natNeoTransfer:
 		tok := w.gas
-		if n.Nat.Tok == 1 {
+		if n.Nat.Kind == natNeoTransfer {
 			tok = w.neo
 		}
 		var data any
@@ -167,6 +204,10 @@ func (w *world) nativeArgs(n *Node, self util.Uint160, selfID int) (util.Uint160
 		if n.Nat.To < numContracts {
 			to = w.hashes[n.Nat.To]
 		}
+		if n.Nat.To == notaryAcc { // Notary deposit: data = [owner = null (sender), till]
+			to = w.notary
+			data = []any{nil, int64(1000000)}
+		}
 		return tok, "transfer", []any{self, to, int64(n.Nat.Amt), data}
 	case natSetFee:
 		return w.policy, "setFeePerByte", []any{int64(n.Nat.Val)}
@@ -176,6 +217,26 @@ func (w *world) nativeArgs(n *Node, self util.Uint160, selfID int) (util.Uint160
 		return w.policy, "unblockAccount", []any{w.plain[n.Nat.Val]}
 	case natDeploy:
 		return w.mgmt, "deploy", []any{w.auxNef[n.Nat.Val], w.auxMan[n.Nat.Val]}
+	case natUpdate:
+		var man []byte
+		if selfID < numContracts {
+			man = w.manifests[selfID]
+		}
+		return w.mgmt, "update", []any{nil, man}
+	case natDestroy:
+		return w.mgmt, "destroy", []any{}
+	case natDesignate:
+		return w.roleMgmt, "designateAsRole", []any{int64(n.Nat.To), w.nodeSets[n.Nat.Val]}
+	case natSetWl:
+		return w.policy, "setWhitelistFeeContract", []any{w.hashes[n.Nat.To], "run", int64(1), int64(n.Nat.Val)}
+	case natDelWl:
+		return w.policy, "removeWhitelistFeeContract", []any{w.hashes[n.Nat.To], "run", int64(1)}
+	case natVote:
+		var k any
+		if n.Nat.Val != 0 {
+			k = w.candKey
+		}
+		return w.neo, "vote", []any{self, k}
 	}
 	panic("bad native op")
 }
